@@ -120,6 +120,12 @@ Example C04_ex_postfix :
   compile $"x.f(a + b, [1, {k: !c}])[i].g * 2" = CExpr (ast t).
 Proof. vm_compute. repeat split; try discriminate; reflexivity. Qed.
 
+(** Unambiguity: well-formed trees that render to the same tokens denote the same AST - in
+    particular a tree and the same tree with redundant parentheses, and no two trees that differ
+    in grouping can share a rendering. *)
+Theorem C04_unambiguous : forall t1 t2, wf_st t1 -> wf_st t2 -> raw t1 = raw t2 -> ast t1 = ast t2.
+Proof. exact raw_unambiguous. Qed.
+
 (** Macro calls are trees of the theorems above: the tree of r.all(x, p) is the comprehension
     built around the trees of r and p, and so on for each macro; such a tree is well formed
     exactly when its parts are, and only a plain name is accepted as the iteration variable. *)
@@ -189,3 +195,4 @@ Print Assumptions C04_macro_trees.
 Print Assumptions C04_macro_wf.
 Print Assumptions C04_macro_var_needed.
 Print Assumptions C04_escident_lexable.
+Print Assumptions C04_unambiguous.
